@@ -483,7 +483,9 @@ def catalogue():
 
 SHAPES = [('int', 'struct', 'array'), ('scaled', 'tuple', 'string'), ('enum', 'nested', 'blob'),
           ('float', 'array', 'int'), ('string', 'floatu', 'structm'), ('blob', 'enum', 'tuple'),
-          ('strlim', 'limits', 'bool'), ('structm', 'limmax', 'strlim')]
+          ('strlim', 'limits', 'bool'), ('structm', 'limmax', 'strlim'),
+          # limits in the first position too: P1 is the parameter that may lack a write method in the quick configurations
+          ('limits', 'int', 'strlim'), ('limmax', 'string', 'limits')]
 ALLTYPES = ['int', 'float', 'floatu', 'scaled', 'bool', 'string', 'strlim', 'blob', 'enum', 'array', 'tuple', 'struct',
             'structm', 'nested', 'limits', 'limmax']
 LIMIT_POSTFIX = {'limits': '_limits', 'limmax': '_max'}
@@ -552,9 +554,12 @@ class World:
                 base = p[:p.index('_')]
                 ns[base] = Parameter('base of a limit', FloatRange(0, 100), default=50.0, readonly=False)
                 try:
-                    ns[p] = self.fp.PersistentLimit(persistent=flag)
+                    # a Limit is writable (gets a write wrapper, hence is registered in writeDict) unless declared
+                    # readonly: the abstract 'has a write method' decides which of the two declarations is used
+                    ns[p] = self.fp.PersistentLimit(persistent=flag, readonly=p not in self.haswrite)
                 except Exception:
-                    ns[p] = self.fp.PersistentLimit()      # (is not even a persistent parameter in this tree)
+                    # (is not even a persistent parameter in this tree)
+                    ns[p] = self.fp.PersistentLimit(readonly=p not in self.haswrite)
                     self.auto.discard(p)
             else:
                 kw = {} if p in self.nodef else {'default': vals[0]}
